@@ -84,7 +84,8 @@ def run_case(case_id, pre_abs, msg_abs, seed, keep_xml=False):
         pre_abs, msg_abs = restyle(pre_abs, f), restyle(msg_abs, f)
         g.idf = f
     ro_xml = g.ro(pre_abs)
-    msg_xml = g.msg(msg_abs)
+    # a completed running order refuses every message whatever it carries: there the message id may be unusable
+    msg_xml = g.msg(msg_abs, loose_mid=any(c["tag"] == "mosromgrmeta" for c in pre_abs["root"]))
     table = {}
     # bind token names to the digests of what was actually rendered
     ro = parse_ro(ro_xml)
